@@ -466,5 +466,14 @@ def check(eng, res):
     res.floor("R-SAG-COMPAT", n, 5)
     sag_misc(eng, res)
     sag_parallel(eng, res)
+    # the inverted terminal used by the terminal test repeats symbol, id and bond order of the terminal (shared with C01)
+    from . import c01 as _c01
+
+    _sub = type(res)(res.prop)
+    _c01.insert_accept(eng, _sub, rule="R-INVERT-TEXT")
+    for _o in _sub.obligations:
+        if _o.role in ("insert-template", "insert-symbol"):
+            res.obligations.append(_o)
+    res.doc("R-INVERT-TEXT", "the inverted terminal used by the terminal test repeats symbol, id and bond order of the terminal (shared with C01's R-INSERT-ACCEPT)")
     res.assumptions += ["RDKit atom indices of the fragment are those of the token's atoms", "networkx: MultiDiGraph.add_edge(u, v, **attrs) without a key always adds a new edge"]
     res.not_decided += ["equality with an independently built graph for every molecule", "completeness of edges beyond 'every pair is considered under the stated filters'"]
